@@ -1204,6 +1204,19 @@ class Ctx:
         if len(cands) == 1:
             return cands[0]
         if len(cands) > 1:
+            # two impls of the same trait for the same type that differ only in the path of a generic argument
+            # (`TryFrom<std::..::SocketAddr>` / `TryFrom<tokio::..::SocketAddr>`): the callee text carries the full
+            # path, the impl header is the source text - narrow by it
+            mr = re.search(r" as [A-Za-z_:]+<([^<>]+)>>::", str(callee))
+            if mr:
+                inner = mr.group(1).strip()
+                narrowed = []
+                for f in cands:
+                    m3 = re.search(r"<impl at (src/[^:]+):(\d+):\d+: \d+:\d+>::", f.name)
+                    if m3 and inner in self.src.impl_header(m3.group(1), int(m3.group(2))):
+                        narrowed.append(f)
+                if len(narrowed) == 1:
+                    return narrowed[0]
             # prefer inherent impls when called with inherent syntax
             raise Inconclusive(f"ambiguous method {callee}: {[f.name for f in cands]}")
         return None
